@@ -273,6 +273,19 @@ def r6_candidates(repo):
         ok = cond == want and src(c.generators[0].iter) == "type_graph.keys()" and src(c.elt) == v
         msg = "candidates = omittable graph nodes minus the virtual return declaration; condition `%s`" % cond
     obs = [Ob("C04-R6", "candidate-nodes", _w(f), ok, msg)]
+    vf = repo.method(TO, "visit_func_decl", inherited=False)
+    tps = [n for n in iter_own_nodes(vf.node) if isinstance(n, ast.Assign) and src(n.targets[0]) == "type_params"
+           and isinstance(n.value, ast.ListComp)]
+    ok2, msg2 = len(tps) == 1, "choice of the type parameter to overwrite not found"
+    if ok2:
+        lc = tps[0].value
+        v = src(lc.generators[0].target)
+        conds = [" ".join(src(i).split()) for i in lc.generators[0].ifs]
+        ok2 = conds == ["any((e.is_inferred() for e in type_graph[%s.target]))" % v] and src(lc.elt) == "%s.target" % v and \
+            src(lc.generators[0].iter).startswith("type_graph[")
+        msg2 = ("only a type parameter that the compiler can also infer from somewhere else (an inferred edge into its node) "
+                "may have its explicit argument overwritten - otherwise the program stays well-typed: condition %s" % conds)
+    obs.append(Ob("C04-R6", "overwritten-type-argument-is-also-inferable", _w(vf), ok2, msg2))
     app = [c for c in calls_in(f.node) if call_name(c) == "append" and src(c.func.value) == "self._candidate_methods"]
     ok = len(app) == 1 and isinstance(app[0].args[0], ast.Tuple) and \
         src(app[0].args[0].elts[0]) == "self._namespace" and ("candidate_nodes", False) not in _g(app[0]) and \
@@ -319,7 +332,7 @@ def rules():
         RuleSpec("C04-R3", "provenance of the written type", 5, r3_provenance),
         RuleSpec("C04-R4", "report flags agree with the write (all paths)", 8, r4_flags),
         RuleSpec("C04-R5", "message arguments", 1, r5_message),
-        RuleSpec("C04-R6", "candidate nodes", 2, r6_candidates),
+        RuleSpec("C04-R6", "candidate nodes", 3, r6_candidates),
         RuleSpec("C04-R7", "oracle wiring", 4, r7_oracle_wiring),
     ]
 
@@ -406,6 +419,12 @@ def _v_inferred_only_for_vars(tree):
     iff.body.append(st)
 
 
+def _v_any_type_param(tree):
+    f = _vf(tree)
+    st = V.one([n for n in ast.walk(f) if isinstance(n, ast.Assign) and ast.unparse(n.targets[0]) == "type_params"])
+    st.value.generators[0].ifs = []
+
+
 def _t_rename(tree):
     f = _vf(tree)
     V.rename_local(f, "ir_type", "replacement")
@@ -427,6 +446,7 @@ def variants():
         V.Variant("virtual return declaration is a candidate", to, _v_ret_candidate, {"C04-R6"}),
         V.Variant("inject_fault reports even when nothing was injected", "src/modules/processor.py", _v_inject_always, {"C04-R7"}),
         V.Variant("inferred_type overwritten only for variables", to, _v_inferred_only_for_vars, {"C04-R1"}),
+        V.Variant("any type parameter may be overwritten (also ones nothing else constrains)", to, _v_any_type_param, {"C04-R6"}),
         V.Variant("twin: rename locals", to, _t_rename, None, twin=True),
         V.Variant("twin: whole tree reformatted by ast.unparse", None, None, None, twin=True),
     ]
